@@ -128,6 +128,9 @@ def main(tier, replay):
         cases.append(('r%d' % i, 'rand', base + i, 'lua' if i % 3 else 'promela', None))
     for i in range(nrand // 4):
         cases.append(('n%d' % i, 'rand', base + 600000 + i, 'null', None))
+    for i in range(nrand // 10):
+        ch, h = C.gen_done_chart(base + 800000 + i)
+        cases.append(('d%d' % i, 'fam', ch, ('lua', 'null')[i % 2], h))
     fam = list(C.family_E(2, 2)) if tier == 'quick' else list(C.family_E(3, 2))
     n = 0
     for ch in fam:
